@@ -21,6 +21,7 @@ import (
 )
 
 var (
+	runTier  = "quick" // the tier of this run, handed to native replays (sv.Thorough() reads VERIF_TIER)
 	repoDir  = "/repo"
 	verifDir = "/verif"
 )
@@ -226,6 +227,7 @@ func cmdCheck(args []string) int {
 		return 2
 	}
 	t0 := time.Now()
+	runTier = *tier
 	cfg := &Config{Solver: *solver, TimeoutMs: 10000, Fuel: 20_000_000, MaxDecisions: 400, MaxIndexSplit: 64,
 		MaxPaths: 500000, Workers: runtime.NumCPU(), Thorough: *tier == "thorough", Verbose: *verbose, Known: loadKnown()}
 	if cfg.Thorough {
@@ -504,7 +506,7 @@ func replayWitness(wpath string, w *Witness, prog *ssa.Program) string {
 	}
 	cmd := exec.Command(bin, "-test.run", "^TestZZReplay$", "-test.v", "-test.count=1")
 	cmd.Dir = tmp
-	cmd.Env = append(goEnv(), "SV_WITNESS="+wpath)
+	cmd.Env = append(goEnv(), "SV_WITNESS="+wpath, "VERIF_TIER="+runTier)
 	done := make(chan struct{})
 	var out []byte
 	go func() {
